@@ -54,6 +54,7 @@ def run(prop, tier):
     # the two sorts the decoder ends with (tandem sort of objects and sounds, legacy sort of mania maps)
     from checks import utilsrep
     utilsrep.run_utils(res, tier, binp, which=("tandem", "legacysort"))
+    utilsrep.run_ctrlpoints(res, tier, binp)
     res.cov["bounds"] = {a: {"max_lines": v[0], "time_values": v[1]} for a, v in ASPECTS[tier].items()}
     # ---- implementation -> specification
     trace = os.path.join(common.OUT, "decoder_trace_%s_%d.ndjson" % (tier, pid))
